@@ -46,4 +46,7 @@ LawDevScope ==
     /\ (MatchesD(rule, msg, {"ns_starts_with"}, FALSE) # Matches(rule, msg)) => Has(rule, "path_namespace")
     /\ (MatchesD(rule, msg, {"argpath_objpath_exact"}, FALSE) # Matches(rule, msg)) => rule.arg_paths # <<>>
     /\ (MatchesD(rule, msg, {"dest_absent_matches"}, FALSE) # Matches(rule, msg)) => Has(rule, "destination") /\ ~Has(msg, "destination")
+(* constant laws: evaluated once at start-up *)
+ASSUME LawNsOrder
+ASSUME LawPathLikeSym
 =============================================================================
